@@ -6,11 +6,13 @@
    per pass, per node, pre-order: the 21 layout integers, then the number of compute_cached_layout calls on the node in that pass, the
    number of those answered by the cache, and the number of measure-function calls for the node.
    The model's output is preceded by two integers the implementation cannot observe: the number of LOSSY hits of the case (ghost:
-   the answering entry was stored for another complete input) and the number of evaluations.  [-1] = out of fuel. *)
+   the answering entry was stored for another complete input -- complete inputs compared with the REPRESENTATION equality of binary32,
+   Model/TaffyKey.v f32_seqb, so that "no lossy hit" is the premise of C01_real_block_equals_exact_when_no_lossy_hit_partial with no
+   premise about the key left) and the number of evaluations.  [-1] = out of fuel. *)
 From Coq Require Import ZArith NArith Bool List.
 From TV Require Import Num.Num Num.F32.
 From TV Require Import Gen.BlockGen Model.Block Model.Engine Model.BlockAlg Model.BlockEngine Model.BlockAbs Model.BlockRoot
-  Model.EngineReal Model.BlockEngineReal Model.BlockEngineRun.
+  Model.EngineReal Model.BlockEngineReal Model.BlockEngineRun Model.TaffyKey.
 Import ListNotations.
 Open Scope Z_scope.
 
@@ -33,7 +35,7 @@ Definition run_real_with (abs_child : @AbsChild f32) (c : list Z) : list Z :=
   | np :: rest0 =>
       let '(avails, rest) := dec_avails (Z.to_nat np) rest0 in
       let t := fst (dec_tree REAL_FUEL rest) in
-      match blr_layout_passes block_pre abs_child REAL_FUEL t avails with
+      match blr_layout_passes f32_seqb block_pre abs_child REAL_FUEL t avails with
       | Some ps => sumN n_lossy ps :: sumN n_eval ps :: flat_map (fun p => enc_nodes (fst p) (snd p)) ps
       | None => [-1]
       end
